@@ -338,7 +338,9 @@ pub fn new_runner(seed: [u8; 32]) -> TestRunner {
 }
 
 /// A runner whose "randomness" is the given byte string (used by the fuzz targets: the fuzzer's
-/// input drives the very same strategies as the random stage).
+/// input drives the very same strategies as the random stage).  Needs the patched PassThrough RNG
+/// of /verif/vendor/proptest (see vendor/PATCH.md): filler instead of zeros after exhaustion, no
+/// halving of the input on RNG forks.
 pub fn passthrough_runner(data: &[u8]) -> TestRunner {
     let mut cfg = Config::default();
     cfg.failure_persistence = None;
